@@ -102,5 +102,6 @@ Proof. vm. Qed.
 (* cross-container: adding the target of a top-level alias below a parent leaves D->fl stale *)
 Definition w_xcache_pre c := run c init_state [konst false None p_ 0; OAlias None al_ [112; 47; 120] 0; OList None S_ALL 0].
 Definition w_xcache_op := konst true (Some p_) x_ 0.
-Lemma w_xcache : inv_full (w_xcache_pre pinned) = true /\ cache_consistent (fst (step pinned (w_xcache_pre pinned) w_xcache_op)) = false.
+Lemma w_xcache : inv_full (w_xcache_pre pinned) = true /\ cache_consistent (fst (step pinned (w_xcache_pre pinned) w_xcache_op)) = false
+  /\ inv_full (fst (step fixed (w_xcache_pre fixed) w_xcache_op)) = true.
 Proof. repeat split; vm. Qed.
